@@ -298,6 +298,14 @@ class SpecEvalMixin:
         raise Unsupported(f"'in' on {container!r}")
 
     def key_term(self, v: Value, k: Kind) -> T:
+        if isinstance(k, KOpt) and k.inner is K_BYTES:
+            # Optional bytes as a table key: None -> empty sequence, b -> [0] ++ b (injective)
+            none_key = seq_empty(SEQI)
+            if v is VNone:
+                return none_key
+            if isinstance(v, VOpt):
+                return Ite(v.isnone, none_key, seq_concat(seq_unit(I(0)), v.inner.t))
+            return seq_concat(seq_unit(I(0)), v.t)
         v = self.unwrap(v)
         if not hasattr(v, "t"):
             raise Unsupported(f"dict key {v!r}")
